@@ -163,3 +163,34 @@ Theorem index_of_bytes_is_index_m : forall file recs p0 f,
   index_of_bytes crc file recs = match index_m p0 f with Ok es => BOk es | _ => BErr InvalidData end.
 Proof. intros file recs p0 f H. unfold index_of_bytes. rewrite H. reflexivity. Qed.
 End CRC.
+
+(* ---- the entry of a single-reference slice carries what the slice header DECLARES ------------ *)
+
+Lemma ctx_of_shdr_single : forall sh, (0 <= sh_rid sh)%Z ->
+  ctx_of_shdr sh = Single (Z.to_N (sh_rid sh)) (Z.to_N (sh_start sh)) (Z.to_N (sh_start sh + sh_span sh - 1)).
+Proof.
+  intros sh H. unfold ctx_of_shdr.
+  destruct (sh_rid sh =? -1)%Z eqn:E1; [lia|]. destruct (sh_rid sh =? -2)%Z eqn:E2; [lia|]. reflexivity.
+Qed.
+
+(* with the slice header fields as given (reference id >= 0, alignment start >= 1, span >= 1 --
+   what ReferenceSequenceContext::try_from accepts): reference = the declared reference id,
+   start = the declared alignment start, span = the declared alignment span *)
+Theorem entry_fields_are_declared : forall crc file recs es e,
+  index_of_bytes crc file recs = BOk es -> In e es ->
+  exists h body rest src sh rest',
+    cram_parse_container crc (at_ (e_off e) file) = POk (h, body, false) rest /\
+    slice_bytes body (e_landmark e) (e_landmark e + e_slen e) = Some src /\
+    r_slice_header crc src = POk sh rest' /\
+    ((0 <= sh_rid sh)%Z -> (1 <= sh_start sh)%Z -> (1 <= sh_span sh)%Z ->
+       e_rid e = Some (Z.to_N (sh_rid sh)) /\ e_start e = Some (Z.to_N (sh_start sh)) /\
+       e_span e = Z.to_N (sh_span sh)) /\
+    (sh_rid sh = (-1)%Z -> e_rid e = None /\ e_start e = None /\ e_span e = 0).
+Proof.
+  intros crc file recs es e Hi Hin.
+  destruct (entries_point_at_bytes crc file recs es e Hi Hin) as [h [body [rest [src [sh [rest' [H1 [_ [_ [H4 [H5 [H6 H7]]]]]]]]]]]].
+  exists h, body, rest, src, sh, rest'. split; [exact H1|]. split; [exact H4|]. split; [exact H5|]. split.
+  - intros Hr Hs Hp. destruct (H6 _ _ _ (ctx_of_shdr_single sh Hr)) as [A [B C]].
+    split; [exact A|]. split; [exact B|]. rewrite C. lia.
+  - intros Hr. apply H7. unfold ctx_of_shdr. rewrite Hr. reflexivity.
+Qed.
